@@ -283,7 +283,20 @@ func runViso(root string, c visoCase) (impl, oracle string) {
 		prefix = "/***PS3***"
 	}
 	var sb strings.Builder
-	f, err := fsys.Open(prefix + c.dir)
+	var f afero.File
+	var err error
+	panicked := false
+	func() {
+		defer func() {
+			if r := recover(); r != nil {
+				panicked = true
+			}
+		}()
+		f, err = fsys.Open(prefix + c.dir)
+	}()
+	if panicked {
+		return "PANIC-in-open", ""
+	}
 	if err != nil {
 		return "openerr", ""
 	}
@@ -561,9 +574,12 @@ func genVisoOps(r *rng, total int64, n int, bounds []int64) []visoOp {
 
 // visoBounds opens the image once and returns its structural boundaries (start, data end of every
 // file extent, directory extents, descriptor area, pad area) and its size.
-func visoBounds(root, dir string, ps3 bool) ([]int64, int64) {
-	var bounds []int64
-	var total int64
+func visoBounds(root, dir string, ps3 bool) (bounds []int64, total int64) {
+	defer func() {
+		if r := recover(); r != nil {
+			bounds, total = nil, 0 // the panic itself is reported by runViso
+		}
+	}()
 	fsys := &fs.FS{Fs: afero.NewBasePathFs(afero.NewOsFs(), root)}
 	pre := "/***DVD***"
 	if ps3 {
@@ -603,7 +619,7 @@ func visoStream(o *out, r *rng, trees int, opsPer int, big bool) {
 		t, dir := genVisoTree(r, big)
 		ps3 := r.chance(40)
 		if ps3 {
-			addPS3Game(r, t, dir, r.picks("BCES00104", "BLUS12345", "NPEB0", "ABCD", "X1234567890123456789012345678"))
+			addPS3Game(r, t, dir, r.picks("BCES00104", "BLUS12345", "NPEB0", "ABCD", "X1234567890123456789012345678", "BCES00104", "AB", "", "X12345678901234567890123456789012345"))
 		}
 		withTempRoot(func(root string) {
 			if err := t.materialize(root); err != nil {
